@@ -32,7 +32,7 @@ theorem engMMVV_raw_unsafe (st : St) (op : String) (a b : Dense) (hc : MMOK a b)
       let s ← eMM st op a.win b.win
       pure ⟨s, none, .a⟩) := by
   unfold engMMVV
-  simp only [hc.ta, hc.tb, hc.ne, hc.sh, hfo_none, hia, hib, hord, bind, Except.bind, pure,
+  simp only [hc.ta, hc.tb, hc.ne, hc.sh, hfo_none, prepAliasVV_none, prepAliasT_none, hia, hib, hord, bind, Except.bind, pure,
     Except.pure, Bool.not_true, Bool.false_eq_true, if_false, Bool.or_false, Bool.and_false, Bool.not_false,
     Bool.and_true, if_true, Bool.false_and, Bool.true_and, Bool.or_self, Bool.false_or, Bool.or_true]
 
@@ -45,7 +45,7 @@ theorem engMMVV_raw_safe (st : St) (op : String) (a b : Dense) (hc : MMOK a b)
       let s ← eMM s op (freshOf st a.dt a.shape a.ap.o.col).win b.win
       pure ⟨s, none, .fresh (freshOf st a.dt a.shape a.ap.o.col)⟩) := by
   unfold engMMVV
-  simp only [hc.ta, hc.tb, hc.ne, hc.sh, hfo_none, hia, hib, hord, newDenseZero_eq, bind, Except.bind, pure,
+  simp only [hc.ta, hc.tb, hc.ne, hc.sh, hfo_none, prepAliasVV_none, prepAliasT_none, hia, hib, hord, newDenseZero_eq, bind, Except.bind, pure,
     Except.pure, Bool.not_true, Bool.false_eq_true, if_false, Bool.or_false, Bool.and_false, Bool.not_false,
     Bool.and_true, if_true, Bool.false_and, Bool.true_and, Bool.or_self, Bool.false_or, Bool.or_true]
 
@@ -94,5 +94,76 @@ theorem engMMVV_safe' (st : St) (op : String) (a b : Dense) (hc : MMOK a b)
       w1.cellD_other (Nat.ne_of_lt hB.lt), allocZero_cellD_lt _ _ _ _ hA.lt, allocZero_cellD_lt _ _ _ _ hB.lt]
   · intro b' k hb'
     rw [w2.other (Nat.ne_of_lt hb'), w1.other (Nat.ne_of_lt hb'), allocZero_cell_lt _ _ _ _ hb']
+
+/-! ### scalar on the left, iterator path (finding F31, repaired) -/
+
+/-- `E.MinBetweenIter(t, a, b, ait, bit)` with a one-element `a`: the scalar-vector kernel over `b` with `b`'s iterator;
+    the kernel's form `if a < b[i] { b[i] = a }` is `minb b[i] a` -/
+theorem eMMIter_SV (st : St) (op : String) (a b : Win) (ia ib : ItS) (ha : a.len = 1) (hb : b.len ≠ 1) :
+    eMMIter st op a b ia ib = (do kIterSV st (← st.rd a 1 0) b (fun a0 bi => .app2 op bi a0) ib) := by
+  simp [eMMIter, isSc, ha, hb]
+
+/-- which path `MinBetweenScalar(t, s, leftTensor = false)` takes in safe mode for an operand that needs an iterator -/
+theorem engMMScalar_iter_left (st : St) (op : String) (t : Dense) (sc : ScalarArg)
+    (hta : ordTypes.contains t.dt = true) (hdt : t.dt = sc.dt) (hsrc : sc.src = none) (hit : t.requiresIterator = true)
+    (hnsc : isScalar t.shape = false) (hs1 : sc.win.len = 1) (hmt : t.mask = none) :
+    engMMScalar st op t sc false {} = (do
+      let s ← Dense.copyIterOffsets (allocZero st (denseLen t.shape)) (freshOf st t.dt t.shape t.ap.o.col).win t.win
+        (freshOf st t.dt t.shape t.ap.o.col).offsets t.offsets
+      let s ← eMMIter s op sc.win (freshOf st t.dt t.shape t.ap.o.col).win []
+        ((freshOf st t.dt t.shape t.ap.o.col).offsets.map (·, true))
+      pure ⟨s, none, .fresh (freshOf st t.dt t.shape t.ap.o.col)⟩) := by
+  have hne : (t.dt != sc.dt) = false := by simp [hdt]
+  have hl : (sc.win.len != 1) = false := by simp [hs1]
+  have hmf : (freshOf st t.dt t.shape t.ap.o.col).mask = none := rfl
+  unfold engMMScalar
+  simp only [hta, hne, ScalarArg.refresh_none _ _ hsrc, hfo_none, prepAliasVV_none, prepAliasT_none, hit, hnsc, hl, newDenseZero_eq, itStream_nomask _ _ hmt, itStream_nomask _ _ hmf,
+    map_true_fst, bind, Except.bind, pure, Except.pure,
+    Bool.not_true, Bool.false_eq_true, if_false, Bool.or_false, Bool.and_false, Bool.not_false,
+    Bool.and_true, if_true, Bool.true_or, Bool.false_and, Bool.true_and, Bool.or_true]
+
+/-- **F31 repaired** for `MinBetween` / `MaxBetween` with the scalar on the left of an operand that needs an iterator:
+    the fresh tensor of the operand's shape and data order holds, at the `k`-th offset of its own iterator, `op t[k-th] s`
+    (the operand's `k`-th logical element); every existing buffer is unchanged -/
+theorem engMMScalar_iter_left' (st : St) (op : String) (t : Dense) (sc : ScalarArg)
+    (hta : ordTypes.contains t.dt = true) (hdt : t.dt = sc.dt) (hsrc : sc.src = none) (hit : t.requiresIterator = true)
+    (hnsc : isScalar t.shape = false) (hs1 : sc.win.len = 1) (hmt : t.mask = none)
+    (hl1 : denseLen t.shape ≠ 1) (hct : t.win.len ≤ t.win.cap)
+    (hor : ∀ i ∈ (freshOf st t.dt t.shape t.ap.o.col).offsets, 0 ≤ i ∧ i < (denseLen t.shape : Int))
+    (hot : ∀ j ∈ t.offsets, 0 ≤ j ∧ j < (t.win.len : Int))
+    (hnd : (freshOf st t.dt t.shape t.ap.o.col).offsets.Nodup)
+    (hT : InBuf st t.win.buf t.win.off t.win.len) (hS : InBuf st sc.win.buf sc.win.off 1) :
+    ∃ st', engMMScalar st op t sc false {} = .ok ⟨st', none, .fresh (freshOf st t.dt t.shape t.ap.o.col)⟩ ∧
+      st'.mheap = st.mheap ∧
+      (∀ (k : Nat) m j, (freshOf st t.dt t.shape t.ap.o.col).offsets[k]? = some m → t.offsets[k]? = some j →
+        cell st' st.heap.size m.toNat =
+          some (.app2 op (cellD st t.win.buf (t.win.off + j.toNat)) (cellD st sc.win.buf sc.win.off))) ∧
+      (∀ b' k', b' < st.heap.size → cell st' b' k' = cell st b' k') := by
+  rw [engMMScalar_iter_left st op t sc hta hdt hsrc hit hnsc hs1 hmt]
+  obtain ⟨s2, h2, hm2, hv2, hf2⟩ := copyIter_then_kIterSV (allocZero st (denseLen t.shape)) t.win
+    (freshOf st t.dt t.shape t.ap.o.col).win sc.win (fun a0 bi => .app2 op bi a0)
+    (freshOf st t.dt t.shape t.ap.o.col).offsets t.offsets
+    (by simp only [freshOf]; exact (Nat.ne_of_lt hT.lt).symm) (by simp only [freshOf]; exact (Nat.ne_of_lt hS.lt).symm)
+    (by simp only [freshOf]; exact Nat.le_refl _) hct (by simpa only [freshOf] using hor) hot hnd
+    (by simp only [freshOf]; exact allocZero_has st _) (hT.has.allocZero hT.lt _) (hS.has.allocZero hS.lt _)
+  refine ⟨s2, ?_, hm2, ?_, ?_⟩
+  · simp only [bind, Except.bind] at h2 ⊢
+    cases hc : Dense.copyIterOffsets (allocZero st (denseLen t.shape)) (freshOf st t.dt t.shape t.ap.o.col).win t.win
+        (freshOf st t.dt t.shape t.ap.o.col).offsets t.offsets with
+    | error e => rw [hc] at h2; cases h2
+    | ok s1 =>
+      rw [hc] at h2
+      simp only [] at h2 ⊢
+      rw [eMMIter_SV _ _ _ _ _ _ hs1 (by simp only [freshOf]; exact hl1)]
+      simp only [bind, Except.bind]
+      cases hrd : s1.rd sc.win 1 0 with
+      | error e => rw [hrd] at h2; cases h2
+      | ok v => rw [hrd] at h2; simp only [] at h2 ⊢; rw [h2]; rfl
+  · intro k m j hm hj
+    have := hv2 k m j hm hj
+    simp only [freshOf, Nat.zero_add] at this
+    rw [this, allocZero_cellD_lt _ _ _ _ hS.lt, allocZero_cellD_lt _ _ _ _ hT.lt]
+  · intro b' k' hb'
+    rw [hf2 _ _ (by simp only [freshOf]; exact Nat.ne_of_lt hb'), allocZero_cell_lt _ _ _ _ hb']
 
 end TM
